@@ -648,6 +648,55 @@ def locate(fn, loc):
             raise Fail("%s: no parameter %s" % (fn.name, loc[1]), fn)
         d = defaults.get(loc[1])
         return ast.copy_location(ast.Constant(d is not None and isinstance(d, ast.Constant) and d.value is None), fn)
+    if kind == "call":
+        # ("call", callee suffix, nth): the nth (source order) call whose callee text ends with the suffix, as a whole
+        # expression -- for shape pins of call sites ("which arguments, in which order")
+        hits = sorted((n for n in ast.walk(fn) if isinstance(n, ast.Call) and ast.unparse(n.func).endswith(loc[1])),
+                      key=lambda n: (n.lineno, n.col_offset))
+        if len(hits) <= loc[2]:
+            raise Fail("%s: no call #%d to %s" % (fn.name, loc[2], loc[1]), fn)
+        return hits[loc[2]]
+    if kind == "ifexp_test":
+        # ("ifexp_test", target, nth): the test of the conditional expression `a if <test> else b` assigned to `target`
+        v = assign_value(fn, loc[1], loc[2])
+        if not isinstance(v, ast.IfExp):
+            raise Fail("%s: %s is no longer assigned a conditional expression (it is `%s`)" % (fn.name, loc[1], ast.unparse(v)), v)
+        return v.test
+    if kind == "if_assigning":
+        # ("if_assigning", target, nth): the test of the nth (source order) `if` statement whose body assigns `target` --
+        # "the guard under which X is set", whatever the guard mentions
+        def assigns(n):
+            for st in n.body:
+                for x in ast.walk(st):
+                    if isinstance(x, ast.Assign) and any(ast.unparse(t) == loc[1] for t in x.targets):
+                        return True
+                    if isinstance(x, ast.AnnAssign) and ast.unparse(x.target) == loc[1] and x.value is not None:
+                        return True
+            return False
+        hits = sorted((n for n in ast.walk(fn) if isinstance(n, ast.If) and assigns(n)), key=lambda n: (n.lineno, n.col_offset))
+        if len(hits) <= loc[2]:
+            raise Fail("%s: no `if` statement #%d assigning %s" % (fn.name, loc[2], loc[1]), fn)
+        return hits[loc[2]].test
+    if kind == "signature":
+        # ("signature",): the parameter list with annotations and defaults, for shape pins of default arguments
+        return fn.args
+    if kind == "for_iter":
+        # ("for_iter", nth): the iterable of the nth (source order) `for` statement
+        hits = sorted((n for n in ast.walk(fn) if isinstance(n, ast.For)), key=lambda n: (n.lineno, n.col_offset))
+        if len(hits) <= loc[1]:
+            raise Fail("%s: no `for` loop #%d" % (fn.name, loc[1]), fn)
+        return hits[loc[1]].iter
+    if kind == "arg_elt":
+        # ("arg_elt", callee suffix, argidx, nth, eltidx): one element of a tuple/list literal passed as an argument
+        # (nth call in source order), e.g. the port in `sendto(packet, (real_addr, port or _MDNS_PORT, *v6_flow_scope))`
+        hits = sorted((n for n in ast.walk(fn) if isinstance(n, ast.Call) and ast.unparse(n.func).endswith(loc[1])),
+                      key=lambda n: (n.lineno, n.col_offset))
+        if len(hits) <= loc[3]:
+            raise Fail("%s: no call #%d to %s" % (fn.name, loc[3], loc[1]), fn)
+        c = hits[loc[3]]
+        if len(c.args) <= loc[2] or not isinstance(c.args[loc[2]], (ast.Tuple, ast.List)) or len(c.args[loc[2]].elts) <= loc[4]:
+            raise Fail("%s: argument %d of %s is not a literal with %d elements" % (fn.name, loc[2], loc[1], loc[4] + 1), c)
+        return c.args[loc[2]].elts[loc[4]]
     raise Fail("bad locator %r" % (loc,))
 
 
